@@ -475,7 +475,8 @@ def det_sampler(repo, tier="quick"):
                                        reason="a random source other than the seeded random.choice/choices is used"))
     need(n_draws >= 3, "anchor vanished: fewer than 3 random.* calls in sample.py", None)
     from .prov import _set_typed as _st
-    for fi in m.functions.values():
+    # ... in sample.py and in the helpers the growth step calls (complement lookup, open-descriptor index)
+    for fi in list(m.functions.values()) + list(repo.module("cgsmiles_utils").functions.values()):
         fl2 = fi.flow
         its = [(nd.ast.iter, nd.id, nd.ast) for nd in fi.cfg.nodes if nd.kind == "for"]
         for sub in ast.walk(fi.node):
